@@ -27,7 +27,7 @@ from vlib.dialects import budget_parser, grammar_decoder, make_encoder, PARSERS
 
 ID = "C14"
 LEVEL = "exploration"
-BUDGET = {"quick": 80, "thorough": 1100}
+BUDGET = {"quick": 200, "thorough": 1200}
 RULE = (
     "decode cases = (variant, literal text, expected type/fields/zone); encode cases "
     "= (encoder, options, temporal object). Non-trivial = literal with a boundary "
